@@ -1,4 +1,5 @@
 import TwistedProps.C18.Reach
+import TwistedProps.C18.ChunkedSplit
 /-!
 C18 — HTTP/1.1 server parsing does not depend on how bytes are segmented.
 
@@ -7,27 +8,34 @@ Model: `TwistedModel/Http/Channel.lean` (`HTTPChannel` on `LineReceiver`, the bo
 application, EVERY byte stream (well-formed or not) and EVERY split of it into deliveries:
 
   the requests handed to the application, the bytes written, whether the server closed the
-  connection (and an exception escaping `dataReceived`) are the same as for the one-piece delivery;
-  and while the connection is up, the whole channel state and `LineReceiver._buffer` are the same,
-  so everything that happens later (postponed responses, further deliveries) is the same too.
+  connection (and an exception escaping `dataReceived`) are the same as for the one-piece delivery
+  (`http_seg_invariant`); and while the connection is up, `LineReceiver._buffer` is the same and the
+  channel state is the same except for one dead attribute of a chunked decoder (`http_seg_state`).
 
 The proof is an invariant argument: the receive loop commutes with appending to its buffer
 (`C18/Append.lean: D_append`), by induction over the loop, for every state satisfying the channel
-invariant `Inv` (`C18/Inv.lean`), given the splitting property of the body decoder in use.
+invariant `Inv` (`C18/Inv.lean`), given the splitting property `SplitOK` of the body decoders.
+That property is proved for both decoders, with no hypothesis left:
 
-What is proved / what is missing.  The splitting property is proved for `_IdentityTransferDecoder`
-(`identity_decoder_splits`).  For `_ChunkedTransferDecoder` it is the explicit hypothesis
-`ChunkedSplit` (a statement about `Twisted.Http.Chunked.dataReceived` alone: feeding `B` then `b`
-is feeding `B ++ b`; rejection and completion are not changed by later bytes; a decoder that wanted
-more completes only by consuming something).  It is exercised by the correspondence checks of C22
-and C18 (every split of chunked bodies) but not yet proved in Lean — hence `…_partial`:
+* `_IdentityTransferDecoder` — `identity_decoder_splits`;
+* `_ChunkedTransferDecoder` — `chunked_decoder_splits` (`C18/ChunkedFind.lean`, `ChunkedStep.lean`,
+  `ChunkedLoop.lean`, `ChunkedSplit.lean`; the per-handler case analysis reuses `loop_eq` and the
+  byte lemmas of `TwistedProps/C22/`): for every decoder state reachable before `finishCallback`,
+  every `B` and `b` — malformed or not — `dataReceived(B); dataReceived(b)` and `dataReceived(B + b)`
+  deliver the same bytes, finish with the same leftover, or raise the same exception after the same
+  callbacks.
 
-  FULL STATEMENT (not yet proved):  `∀ app chunks, obs (runOps app Twisted.Http.Channel.init (chunks.map .data)) =
-     obs (runOps app Twisted.Http.Channel.init [.data chunks.flatten])`   — i.e. `http_seg_invariant_partial` without `hc`.
+"Same decoder" is up to `lenEq`: `_dataReceived_BODY` leaves `self.length` untouched when it delivers
+the end of a chunk, so afterwards (states CRLF / CHUNK_LENGTH, until the next size line overwrites it)
+the attribute holds the whole chunk size after a one-piece delivery and the part that was missing
+after a split one.  It is never read in between; `outc_lenEq` proves that `dataReceived` cannot tell
+such decoders apart, and `D_rel` lifts that to the channel.  Strict equality of the decoder objects
+is false: `chunked_length_attr_differs`.
 -/
 namespace TwistedProps.C18
 open Twisted.Http.Chunked hiding St feed init
 open Twisted.Http.Channel
+open TwistedProps.C22 (loop_eq)
 
 /-- what the property observes of a connection -/
 structure Obs where
@@ -38,23 +46,6 @@ structure Obs where
   deriving DecidableEq
 
 def obs (s : St) : Obs := ⟨delivered s.outs, written s.outs, s.chan.closed, s.chan.raised⟩
-
-/-- the splitting property of `_ChunkedTransferDecoder`, for decoders satisfying `okc` -/
-structure ChunkedSplit (okc : Dec → Prop) : Prop where
-  more : ∀ d B b d', okc d → decFeed (.chunked d) B = .more d' →
-    decFeed d' b = decFeed (.chunked d) (B ++ b) ∧ ∃ d2, d' = .chunked d2 ∧ okc d2
-  fin : ∀ d B b body extra, okc d → decFeed (.chunked d) B = .fin body extra →
-    decFeed (.chunked d) (B ++ b) = .fin body (extra ++ b)
-  bad : ∀ d B b, okc d → decFeed (.chunked d) B = .bad → decFeed (.chunked d) (B ++ b) = .bad
-  exc : ∀ d B b e, okc d → decFeed (.chunked d) B = .exc e → decFeed (.chunked d) (B ++ b) = .exc e
-  prog : ∀ d B b d' body extra, okc d → decFeed (.chunked d) B = .more d' → decFeed d' b = .fin body extra →
-    extra.length < b.length
-  init : okc Twisted.Http.Chunked.init
-
-def okAll (okc : Dec → Prop) : Decoder → Prop
-  | .none => True
-  | .ident d => identOK d
-  | .chunked d => okc d
 
 theorem ident_prog (d : Ident) (B b body extra : Bytes) (d' : Decoder) (hok : identOK d)
     (h : decFeed (.ident d) B = .more d') (h2 : decFeed d' b = .fin body extra) : extra.length < b.length := by
@@ -89,31 +80,82 @@ theorem identity_decoder_splits (d : Ident) (B b : Bytes) (hok : identOK d) :
   ⟨fun d' h => (ident_more d B b d' hok h).1, fun body extra h => ident_fin d B b body extra hok h,
    fun e h => ident_exc d B b e h⟩
 
-theorem splitOK_of (okc : Dec → Prop) (hc : ChunkedSplit okc) : SplitOK (okAll okc) where
+/-- **`_ChunkedTransferDecoder` splits**: for a decoder that has not finished (`chunkedOK`: what
+    `dataReceived` leaves while `finishCallback` has not fired, starting from a new decoder), feeding
+    `B` and then `b` is feeding `B ++ b`, whatever the bytes:
+    * more wanted after `B`: the same verdict for `b` as for `B ++ b` in one piece (same delivered
+      bytes; decoders equal up to the dead `length`, `DRes.rel`), the decoder is again `chunkedOK`, and
+      it completes only by consuming part of `b`;
+    * completed by `B` with leftover `extra`: completed by `B ++ b` with the same body and leftover `extra ++ b`;
+    * `_MalformedChunkedDataError` on `B`: the same on `B ++ b`; no other exception escapes. -/
+theorem chunked_decoder_splits (d : Dec) (B b : Bytes) (hok : chunkedOK d) :
+    (∀ d', decFeed (.chunked d) B = .more d' →
+      DRes.rel (decFeed d' b) (decFeed (.chunked d) (B ++ b)) ∧ (∃ d2, d' = .chunked d2 ∧ chunkedOK d2) ∧
+      ∀ body extra, decFeed d' b = .fin body extra → extra.length < b.length) ∧
+    (∀ body extra, decFeed (.chunked d) B = .fin body extra → decFeed (.chunked d) (B ++ b) = .fin body (extra ++ b)) ∧
+    (decFeed (.chunked d) B = .bad → decFeed (.chunked d) (B ++ b) = .bad) ∧
+    (∀ e, decFeed (.chunked d) B ≠ .exc e) := by
+  refine ⟨fun d' h => ?_, fun body extra h => chunk_fin d B b body extra hok h, fun h => chunk_bad d B b hok h, ?_⟩
+  · obtain ⟨h1, d2, h2, h3, _⟩ := chunk_more d B b d' hok h
+    exact ⟨h1, ⟨d2, h2, h3⟩, fun body extra hf => chunk_prog d B b body extra d' hok h hf⟩
+  · intro e h
+    rw [decFeed_chunked] at h
+    obtain ⟨_, _, h3⟩ := outc_split _ (d.append B) (Nat.lt_succ_self _) (chunkedOK_append d B hok) []
+    cases ho : outc (d.append B) with
+    | ok s' => rw [ho] at h; simp only [ofOutc] at h; split at h <;> simp at h
+    | error x =>
+      obtain ⟨e1, y⟩ := x
+      have := (h3 _ ho).1
+      simp only at this
+      subst this
+      rw [ho] at h
+      simp [ofOutc] at h
+
+/-- the same at the level of `_ChunkedTransferDecoder.dataReceived` itself, raising cases included:
+    `outc s` is the decoder after the loop ran on what is buffered, or the exception class with the
+    bytes `dataCallback` and the arguments `finishCallback` had received before the raise -/
+theorem chunked_dataReceived_splits (d : Dec) (B b : Bytes) (hok : chunkedOK d) :
+    (∀ d', outc (d.append B) = .ok d' → d'.state ≠ .finished →
+      chunkedOK d' ∧ resRel (outc (d'.append b)) (outc (d.append (B ++ b)))) ∧
+    (∀ d', outc (d.append B) = .ok d' → d'.state = .finished →
+      ∃ extra, d'.fin = [extra] ∧ outc (d.append (B ++ b)) = .ok { d' with fin := [extra ++ b] }) ∧
+    (∀ e dat fn, outc (d.append B) = .error (e, dat, fn) →
+      e = .malformed ∧ outc (d.append (B ++ b)) = .error (e, dat, fn)) := by
+  obtain ⟨h1, h2, h3⟩ := outc_split _ (d.append B) (Nat.lt_succ_self _) (chunkedOK_append d B hok) b
+  rw [append_append] at h1 h2 h3
+  exact ⟨h1, h2, fun e dat fn h => h3 (e, dat, fn) h⟩
+
+theorem splitOK_all : SplitOK okAll where
   more := by
     intro d B b d' hok h
     cases d with
     | none => simp [decFeed] at h
-    | ident d => exact (ident_more d B b d' hok h).1
-    | chunked d => exact (hc.more d B b d' hok h).1
+    | ident d => exact Or.inl (ident_more d B b d' hok h).1
+    | chunked d => exact (chunk_more d B b d' hok h).1
+  cong := by
+    intro d1 d2 Y hok h
+    cases d2 with
+    | none => rw [decRel_none h]; exact DRes.rel.refl _
+    | ident d => rw [decRel_ident h]; exact DRes.rel.refl _
+    | chunked d => exact chunk_cong d1 d Y h
   fin := by
     intro d B b body extra hok h
     cases d with
     | none => simp [decFeed] at h
     | ident d => exact ident_fin d B b body extra hok h
-    | chunked d => exact hc.fin d B b body extra hok h
+    | chunked d => exact chunk_fin d B b body extra hok h
   bad := by
     intro d B b hok h
     cases d with
     | none => simp [decFeed] at h
     | ident d => exact absurd h (ident_not_bad d B)
-    | chunked d => exact hc.bad d B b hok h
+    | chunked d => exact chunk_bad d B b hok h
   exc := by
     intro d B b e hok h
     cases d with
     | none => simpa [decFeed] using h
     | ident d => exact ident_exc d B b e h
-    | chunked d => exact hc.exc d B b e hok h
+    | chunked d => exact chunk_exc d B b e hok h
   keep := by
     intro d B d' hok h
     cases d with
@@ -122,17 +164,17 @@ theorem splitOK_of (okc : Dec → Prop) (hc : ChunkedSplit okc) : SplitOK (okAll
       obtain ⟨_, d2, hd, hk⟩ := ident_more d B [] d' hok h
       subst hd; exact hk
     | chunked d =>
-      obtain ⟨_, d2, hd, hk⟩ := hc.more d B [] d' hok h
+      obtain ⟨_, d2, hd, hk, _⟩ := chunk_more d B [] d' hok h
       subst hd; exact hk
   prog := by
     intro d B b d' body extra hok h h2
     cases d with
     | none => simp [decFeed] at h
     | ident d => exact ident_prog d B b body extra d' hok h h2
-    | chunked d => exact hc.prog d B b d' body extra hok h h2
+    | chunked d => exact chunk_prog d B b body extra d' hok h h2
   none := trivial
   ident := fun n => ⟨rfl, rfl⟩
-  chunked := hc.init
+  chunked := chunkedOK_init
 
 def resOf (s : St) : Res := (s.chan, s.buffer, s.outs)
 
@@ -154,7 +196,7 @@ theorem seg_step (ok : Decoder → Prop) (H : SplitOK ok) (app : App) (A c : Byt
   by_cases hlX : live X.chan
   · have hIX := hinv hlX
     obtain ⟨e1, e2⟩ := hag.2.2.2 hlX
-    have hlY : live (D app {} A).1 := by rw [e1]; exact hlX
+    have hlY : live (D app {} A).1 := e1.live.mpr hlX
     have hns : X.stopped = false := by simp [St.stopped, hlX.1, hlX.2, hlost]
     have hstep : step app X (.data c) = Twisted.Http.Channel.feed app X c := by simp [step, hns]
     obtain ⟨hr, hl⟩ := feed_res app X c hIX.i4
@@ -162,8 +204,8 @@ theorem seg_step (ok : Decoder → Prop) (H : SplitOK ok) (app : App) (A c : Byt
     refine ⟨?_, by rw [hl]; exact hlost, ?_⟩
     · rw [hr]
       refine Agree.trans happ ?_
-      rw [seq_live _ _ _ hlY, e1, e2]
-      exact Agree.pre _ _ hag.2.2.1 (Agree.refl _)
+      rw [seq_live _ _ _ hlY, e2]
+      exact Agree.pre _ _ hag.2.2.1 (D_rel ok H app _ _ _ e1 hIX hlX)
     · have : (Twisted.Http.Channel.feed app X c).chan = (D app X.chan (X.buffer ++ c)).1 := by
         have := congrArg (·.1) hr; simpa [resOf, pre] using this
       rw [this]
@@ -213,13 +255,13 @@ theorem runOps_one (app : App) (Z : Bytes) :
   show pre [] (D app {} ([] ++ Z)) = D app {} Z
   rw [pre_nil, List.nil_append]
 
-/-- **C18, observables** (partial: `hc` is the splitting property of the chunked decoder, see the
-    header).  For every application, every byte stream and every split of it into deliveries, the
-    requests handed to the application, the bytes written, the closing of the connection and an
-    escaping exception are those of the one-piece delivery. -/
-theorem http_seg_invariant_partial (okc : Dec → Prop) (hc : ChunkedSplit okc) (app : App) (chunks : List Bytes) :
+/-- **C18, observables.**  For every application, every byte stream and every split of it into
+    deliveries, the requests handed to the application (method, target, version, headers, body), the
+    bytes written, the closing of the connection and an escaping exception are those of the
+    one-piece delivery. -/
+theorem http_seg_invariant (app : App) (chunks : List Bytes) :
     obs (runOps app Twisted.Http.Channel.init (chunks.map .data)) = obs (runOps app Twisted.Http.Channel.init [.data chunks.flatten]) := by
-  have hag := seg_agree (okAll okc) (splitOK_of okc hc) app chunks
+  have hag := seg_agree okAll splitOK_all app chunks
   have h1 := runOps_one app chunks.flatten
   rw [← h1] at hag
   obtain ⟨a1, a2, a3, _⟩ := hag
@@ -227,21 +269,22 @@ theorem http_seg_invariant_partial (okc : Dec → Prop) (hc : ChunkedSplit okc) 
   simp only [obs]
   rw [← written_core, ← delivered_core, ← a3, written_core, delivered_core, a1, a2]
 
-/-- **C18, state** (partial, same hypothesis): while the connection is up after the split delivery, the
-    channel and the receive buffer are exactly those of the one-piece delivery — so whatever happens
-    next (a postponed response being finished, more deliveries, pause/resume, loss) happens the same. -/
-theorem http_seg_state_partial (okc : Dec → Prop) (hc : ChunkedSplit okc) (app : App) (chunks : List Bytes)
+/-- **C18, state**: while the connection is up after the split delivery, the receive buffer is exactly
+    that of the one-piece delivery, and so is the channel — up to `chanRel`: identical, or (raw mode,
+    body being received) identical except for the `length` attribute of the chunked decoder while
+    that attribute is dead (`lenEq`).  By `D_rel` whatever is delivered next is handled the same. -/
+theorem http_seg_state (app : App) (chunks : List Bytes)
     (hup : (runOps app Twisted.Http.Channel.init (chunks.map .data)).stopped = false) :
-    (runOps app Twisted.Http.Channel.init (chunks.map .data)).chan = (runOps app Twisted.Http.Channel.init [.data chunks.flatten]).chan ∧
+    chanRel (runOps app Twisted.Http.Channel.init [.data chunks.flatten]).chan (runOps app Twisted.Http.Channel.init (chunks.map .data)).chan ∧
     (runOps app Twisted.Http.Channel.init (chunks.map .data)).buffer = (runOps app Twisted.Http.Channel.init [.data chunks.flatten]).buffer := by
-  have hag := seg_agree (okAll okc) (splitOK_of okc hc) app chunks
+  have hag := seg_agree okAll splitOK_all app chunks
   have h1 := runOps_one app chunks.flatten
   rw [← h1] at hag
   have hl : live (runOps app Twisted.Http.Channel.init (chunks.map .data)).chan := by
     simp only [St.stopped, Bool.or_eq_false_iff] at hup
     exact ⟨hup.1.1, by simpa using hup.1.2⟩
   obtain ⟨e1, e2⟩ := hag.2.2.2 hl
-  exact ⟨e1.symm, e2.symm⟩
+  exact ⟨e1, e2.symm⟩
 
 /-! ### non-vacuity: a pipelined stream with a body, cut inside the request line, inside the body
     and inside the second request — the split run hands over two requests and answers both -/
@@ -264,5 +307,71 @@ example : (obs (runOps exApp Twisted.Http.Channel.init (exChunks.map .data))).wr
     (obs (runOps exApp Twisted.Http.Channel.init (exChunks.map .data))).closed = false ∧
     obs (runOps exApp Twisted.Http.Channel.init (exChunks.map .data)) = obs (runOps exApp Twisted.Http.Channel.init [.data exChunks.flatten]) := by
   decide +kernel
+
+/-! ### the dead `length` attribute: why "same decoder" is up to `lenEq` -/
+
+def exS1 : Dec := { Twisted.Http.Chunked.init with buffer := [53, 13, 10, 97, 98] }
+def exS2 : Dec := { Twisted.Http.Chunked.init with state := .body, length := 5, buffer := [97, 98] }
+def exS3 : Dec := { Twisted.Http.Chunked.init with state := .body, length := 3, buffer := [], data := [97, 98] }
+def exS4 : Dec := { Twisted.Http.Chunked.init with state := .crlf, length := 3, buffer := [], data := [97, 98, 99, 100, 101] }
+def exT2 : Dec := { Twisted.Http.Chunked.init with state := .body, length := 5, buffer := [97, 98, 99, 100, 101] }
+def exT3 : Dec := { Twisted.Http.Chunked.init with state := .crlf, length := 5, buffer := [], data := [97, 98, 99, 100, 101] }
+
+theorem ex_h1 : handler exS1 = .ok (true, exS2) := by
+  simp [handler, exS1, exS2, Twisted.Http.Chunked.init, handleChunkLength, findCRLF, findCRLFFrom, CR, LF,
+    maxChunkSizeLineLength, hexint, isHexDigits, isHexDigit, splitSemi, SEMI, hexVal, hexDigitVal]
+
+theorem ex_h2 : handler exS2 = .ok (true, exS3) := by
+  simp [handler, exS2, exS3, Twisted.Http.Chunked.init, handleBody]
+
+theorem ex_h3 : handler (exS3.append [99, 100, 101]) = .ok (true, exS4) := by
+  simp [handler, exS3, exS4, Dec.append, Twisted.Http.Chunked.init, handleBody]
+
+theorem ex_g1 : handler (Twisted.Http.Chunked.init.append [53, 13, 10, 97, 98, 99, 100, 101]) = .ok (true, exT2) := by
+  simp [handler, exT2, Dec.append, Twisted.Http.Chunked.init, handleChunkLength, findCRLF, findCRLFFrom, CR, LF,
+    maxChunkSizeLineLength, hexint, isHexDigits, isHexDigit, splitSemi, SEMI, hexVal, hexDigitVal]
+
+theorem ex_g2 : handler exT2 = .ok (true, exT3) := by
+  simp [handler, exT2, exT3, Twisted.Http.Chunked.init, handleBody]
+
+theorem ex_d1 : dataReceived Twisted.Http.Chunked.init [53, 13, 10, 97, 98] = .ok exS3 := by
+  have e0 : Twisted.Http.Chunked.init.append [53, 13, 10, 97, 98] = exS1 := rfl
+  unfold dataReceived
+  rw [e0, loop_eq exS1, if_neg (by simp [exS1]), ex_h1]
+  simp only
+  rw [loop_eq exS2, if_neg (by simp [exS2]), ex_h2]
+  simp only
+  rw [loop_eq exS3, if_pos (by simp [exS3])]
+
+/-- **strict equality of the decoder objects is false**: after `5\r\nab` + `cde` the attribute
+    `length` of the decoder is 3 (what was missing of the chunk), after `5\r\nabcde` in one piece
+    it is 5 — same state CRLF, same delivered bytes; the decoders are `lenEq` and not equal -/
+theorem chunked_length_attr_differs :
+    ∃ d1 d2 d3, dataReceived Twisted.Http.Chunked.init [53, 13, 10, 97, 98] = .ok d1 ∧
+      dataReceived d1 [99, 100, 101] = .ok d2 ∧
+      dataReceived Twisted.Http.Chunked.init [53, 13, 10, 97, 98, 99, 100, 101] = .ok d3 ∧
+      d2.length = 3 ∧ d3.length = 5 ∧ d2.data = d3.data ∧ lenEq d2 d3 ∧ d2 ≠ d3 := by
+  refine ⟨exS3, exS4, exT3, ?_, ?_, ?_, rfl, rfl, rfl, ⟨rfl, fun h => by simp [exS4] at h⟩, by simp [exS4, exT3]⟩
+  · exact ex_d1
+  · unfold dataReceived
+    rw [loop_eq (exS3.append _), if_neg (by simp [exS3, Dec.append]), ex_h3]
+    simp only
+    rw [loop_eq exS4, if_pos (by simp [exS4])]
+  · unfold dataReceived
+    rw [loop_eq (Dec.append _ _), if_neg (by simp [Dec.append]), ex_g1]
+    simp only
+    rw [loop_eq exT2, if_neg (by simp [exT2]), ex_g2]
+    simp only
+    rw [loop_eq exT3, if_pos (by simp [exT3])]
+
+/-- non-vacuity of `chunked_decoder_splits`: a new decoder is `chunkedOK`, and `5\r\nab` leaves it
+    wanting more (state BODY, 3 bytes missing, `ab` delivered) — the `more` clause applies -/
+example : chunkedOK Twisted.Http.Chunked.init ∧
+    decFeed (.chunked Twisted.Http.Chunked.init) [53, 13, 10, 97, 98] = .more (.chunked exS3) ∧
+    exS3.state = .body ∧ exS3.length = 3 ∧ exS3.data = [97, 98] := by
+  refine ⟨chunkedOK_init, ?_, rfl, rfl, rfl⟩
+  unfold decFeed
+  simp only [ex_d1]
+  rfl
 
 end TwistedProps.C18
